@@ -218,6 +218,31 @@ impl Property for C02 {
                 }
             }
         }
+        // thousands of bits
+        for (lt, rt) in [(TID_D, TID_D), (TID_A, TID_D), (TID_D, TID_A), (TID_D, 18u8), (18u8, TID_D), (TID_A, 11u8)] {
+            if !sh.mine() {
+                continue;
+            }
+            let lc = fixed_cap(lt).unwrap_or(usize::MAX);
+            let rc = fixed_cap(rt).unwrap_or(usize::MAX);
+            for n in [1025usize, 2048, 4097] {
+                let n = n.min(lc);
+                for m in [n, n / 2 + 7, 576usize, 64] {
+                    let m = m.min(rc);
+                    for a in long_values(n) {
+                        for b in [long_values(m)[1].clone(), long_values(m)[2].clone(), Bits::from_u128(3, m), long_values(m)[5].clone()] {
+                            for kind in kinds {
+                                rot += 1;
+                                let c = C02Case { a: Operand::canon(lt, a.clone()), b: Rhs::V(Operand::canon(rt, b.clone())), kind, form: FORMS[rot % 6] };
+                                if !f(c) {
+                                    return;
+                                }
+                            }
+                        }
+                    }
+                }
+            }
+        }
         // divisor-length sweep (the "long but small divisor" class)
         for lt in FIXED_TIDS {
             for rt in 0..NT {
